@@ -76,10 +76,10 @@ class EvGen:
                     L.append('    sv(%d, %d, 0, 0);' % (EV['APPLY0'], 200 + r))
                 L.append('    sv(%d, %d, 0, 0);' % (EV['APPLY0'], r))
                 vb, ve = '0', '0'
+            L.append('    int v = sp_veto(%d, %s, %s);' % (r, vb, ve))
+            au = (s.hook('UNWIND', r, '0', 'state') + ' ') if (s.unwind and s.action_unwind) else ''
+            L.append('    if (v == 2) { %sout_t x = { 3, p, %d, p, b.far }; return x; }   /* the action throws */' % (au, 3000 + r))
             if s.action in ('bool', 'bool0'):
-                L.append('    int v = sp_veto(%d, %s, %s);' % (r, vb, ve))
-                au = (s.hook('UNWIND', r, '0', 'state') + ' ') if (s.unwind and s.action_unwind) else ''
-                L.append('    if (v == 2) { %sout_t x = { 3, p, %d, p, b.far }; return x; }' % (au, 3000 + r))
                 L.append('    if (v == 0) ok = 0;')
             L.append('  }')
         L.append('  if (ok) { %s return b; }' % s.hook('SUCCESS', r, 'b.pos', 'state'))
